@@ -41,9 +41,14 @@ def make_compare_pair(work, rng, family, nbands=1):
     for _ in range(rng.randint(0, 3)):
         rmask[rng.randrange(rshape[0]), rng.randrange(rshape[1])] = False
     sfn, rfn = work / 'cmp_src.tif', work / 'cmp_ref.tif'
-    synth.write_tif(sfn, src, g.src_transform, mask=smask)
-    synth.write_tif(rfn, ref, g.ref_transform, mask=rmask)
-    return dict(src_fn=sfn, ref_fn=rfn, geom=g, src=src, ref=ref, smask=smask, rmask=rmask, pm=pm, ratio=ratio, off=off, family=family)
+    # how each image stores invalidity (values are integers 1..120, so the integer encodings are lossless; no value equals a nodata value)
+    encs = [dict(encoding='nan'), dict(encoding='nodata', nodata=-9999.0), dict(encoding='nodata', nodata=0.0), dict(encoding='mask', hidden=50.0),
+            dict(encoding='nodata', nodata=-9999, dtype='int16'), dict(encoding='nodata', nodata=0, dtype='uint8'), dict(encoding='nan')]
+    senc, renc = rng.choice(encs), rng.choice(encs)
+    synth.write_tif(sfn, src, g.src_transform, mask=smask, **senc)
+    synth.write_tif(rfn, ref, g.ref_transform, mask=rmask, **renc)
+    return dict(src_fn=sfn, ref_fn=rfn, geom=g, src=src, ref=ref, smask=smask, rmask=rmask, pm=pm, ratio=ratio, off=off, family=family,
+                src_encoding=senc, ref_encoding=renc)
 
 
 def compare_case(pair, max_block_mem, threads, src_bands=None, ref_bands=None):
